@@ -63,24 +63,24 @@ def gen_ops(rnd, tier):
         if x < 0.55:
             y = rnd.random()
             if y < 0.4:
-                ops.append(("sample", p, ow, "valid", rnd.choice(["hmc", "rwmh"]), rnd.randrange(3)))
+                ops.append(("sample", p, ow, "valid", rnd.choice(["hmc", "rwmh"]), rnd.randrange(3), rnd.random() < 0.3))
             elif y < 0.6:
-                ops.append(("sample", p, ow, rnd.choice(BEFORE), rnd.choice(["hmc", "rwmh"]), rnd.randrange(3)))
+                ops.append(("sample", p, ow, rnd.choice(BEFORE), rnd.choice(["hmc", "rwmh"]), rnd.randrange(3), rnd.random() < 0.3))
             else:
                 k = rnd.choice(["hmc", "rwmh"])
                 st = rnd.choice([a for a in AFTER if k == "hmc" or not a.startswith("hmc_")])
-                ops.append(("sample", p, ow, st, k, rnd.randrange(3)))
+                ops.append(("sample", p, ow, st, k, rnd.randrange(3), rnd.random() < 0.3))
         elif x < 0.7:
             ops.append(("openw", p, ow))
         elif x < 0.76:
             # the user (not the library) removes one half of the NPY pair: the other half is still an existing samples file
             ops.append((rnd.choice(["user_removes_sidecar", "user_removes_array"]), 2))
         else:
-            ops.append((rnd.choice(["copy", "deepcopy", "pickle", "load_results", "deepcopy"]), rnd.randrange(3)))
+            ops.append((rnd.choice(["copy", "deepcopy", "pickle", "load_results", "deepcopy", "pickle_roundtrip", "pickle_roundtrip_samples"]), rnd.randrange(3)))
     return ops
 
 
-def do_sample(wd, sampler, kind, p, ow, stage):
+def do_sample(wd, sampler, kind, p, ow, stage, diag=False):
     import hmclab
     target = hmclab.Distributions.Normal(numpy.array([[0.5], [-0.25]]), numpy.array([[1.0], [2.0]]))
     fname = os.path.join(wd, GIVEN[p])
@@ -90,6 +90,8 @@ def do_sample(wd, sampler, kind, p, ow, stage):
         kw.update(stepsize=0.2, amount_of_steps=2)
     else:
         kw.update(stepsize=0.5)
+    if diag:
+        kw["diagnostic_mode"] = True         # timing wrappers around every call of the loop (they hold references to the Samples object)
     if stage == "proposals_zero":
         kw["proposals"] = 0
     elif stage == "proposals_float":
@@ -141,11 +143,11 @@ def run_impl(ops, wd):
         code = 0
         with contextlib.redirect_stdout(io.StringIO()), contextlib.redirect_stderr(io.StringIO()), numpy.errstate(all="ignore"):
             if op[0] == "sample":
-                _, p, ow, stage, kind, slot = op
+                _, p, ow, stage, kind, slot = op[:6]
                 if samplers[slot] is None or kinds[slot] != kind:
                     samplers[slot] = (hmclab.Samplers.HMC if kind == "hmc" else hmclab.Samplers.RWMH)(seed=slot + 1)
                     kinds[slot] = kind
-                code = do_sample(wd, samplers[slot], kind, p, ow, stage)
+                code = do_sample(wd, samplers[slot], kind, p, ow, stage, diag=(len(op) > 6 and op[6]))
             elif op[0] == "openw":
                 _, p, ow = op
                 try:
@@ -174,6 +176,17 @@ def run_impl(ops, wd):
                             del c
                         elif op[0] == "pickle":
                             pickle.dumps(s)
+                        elif op[0].startswith("pickle_roundtrip"):
+                            # the pickler hmclab itself ships samplers to its worker processes with (multiprocess -> dill); plain
+                            # pickle when that is not importable.  Serialise, load, drop the copy.
+                            try:
+                                import dill as pk
+                            except ImportError:  # pragma: no cover
+                                pk = pickle
+                            obj = s if op[0] == "pickle_roundtrip" else getattr(s, "samples", None)
+                            if obj is not None:
+                                c = pk.loads(pk.dumps(obj))
+                                del c
                         else:
                             s.load_results()
                     except Exception:
@@ -225,7 +238,8 @@ def coq_case(ops, obs):
             return f"OpenW {op[1]} {str(op[2]).lower()}"
         if op[0].startswith("user_removes"):
             return "CopyObj"            # the path still holds (half of) a samples file: no change of the model state, nothing observed
-        return {"copy": "CopyObj", "deepcopy": "DeepCopyObj", "pickle": "PickleObj", "load_results": "LoadResults"}[op[0]]
+        return {"copy": "CopyObj", "deepcopy": "DeepCopyObj", "pickle": "PickleObj", "load_results": "LoadResults",
+                "pickle_roundtrip": "PickleObj", "pickle_roundtrip_samples": "PickleObj"}[op[0]]
     o = "[" + "; ".join("(%d, [%s])" % (code, "; ".join(str(b).lower() for b in ch)) for code, ch, _, _ in obs) + "]"
     return "{| f_ops := [%s]; f_obs := %s |}" % ("; ".join(enc(x) for x in ops), o)
 
@@ -244,10 +258,16 @@ def run(tier, seed):
             if i < len(AFTER) + len(BEFORE):      # every validation stage in turn, on an existing path, without consent
                 st = (AFTER + BEFORE)[i]
                 k = "hmc" if st.startswith("hmc_") else rnd.choice(["hmc", "rwmh"])
-                ops = [("sample", i % 3, False, "valid", k, 0), ("sample", i % 3, False, st, k, 0),
-                       ("deepcopy", 0), ("sample", (i + 1) % 3, False, st, k, 1)] + ops[:3]
-            elif i < len(AFTER) + len(BEFORE) + 4:   # half an NPY pair is still an existing samples file: both halves, both writers
+                dg = i % 2 == 1         # every other stage with diagnostic mode on
+                ops = [("sample", i % 3, False, "valid", k, 0, dg), ("sample", i % 3, False, st, k, 0, dg),
+                       ("deepcopy", 0), ("sample", (i + 1) % 3, False, st, k, 1, dg)] + ops[:3]
+            elif i < len(AFTER) + len(BEFORE) + 2:   # a pickle round trip of a sampler (and of its Samples object) that owns a file, each back end
                 j = i - len(AFTER) - len(BEFORE)
+                k = rnd.choice(["hmc", "rwmh"])
+                pth = [2, 0][j]
+                ops = [("sample", pth, False, "valid", k, 0), ("pickle_roundtrip", 0), ("pickle_roundtrip_samples", 0), ("sample", pth, False, "valid", k, 0)] + ops[:3]
+            elif i < len(AFTER) + len(BEFORE) + 6:   # half an NPY pair is still an existing samples file: both halves, both writers
+                j = i - len(AFTER) - len(BEFORE) - 2
                 k = rnd.choice(["hmc", "rwmh"])
                 rm = ("user_removes_sidecar", 2) if j % 2 == 0 else ("user_removes_array", 2)
                 wr = ("sample", 2, False, "valid", k, 1) if j < 2 else ("openw", 2, False)
